@@ -809,3 +809,342 @@ Proof. apply t2j_walk_depth_stable. Qed.
 
 Corollary t2j_walk_progress n o d bs txt r : t2j_walk n o d bs = Some (txt, r) -> (length r < length bs)%nat.
 Proof. apply t2j_walk_shrinks. Qed.
+
+(* ====================================================================================================== *)
+(* (3) P2JBytes: the protobuf -> JSON byte walk                                                             *)
+(* ====================================================================================================== *)
+From DG Require Import CaseFormat ProtoMsg P2J P2JBytes.
+
+(* ---- elementary reads ---- *)
+Lemma ptake_len n bs x r : ProtoMsg.take n bs = Some (x, r) ->
+  0 <= n /\ (length bs = Z.to_nat n + length r)%nat /\ length x = Z.to_nat n.
+Proof.
+  unfold ProtoMsg.take. destruct ((0 <=? n) && (n <=? plen bs)) eqn:E; [|discriminate].
+  apply andb_true_iff in E. destruct E as [E1 E2]. apply Z.leb_le in E1. apply Z.leb_le in E2. unfold plen in E2.
+  intros H; inversion H; subst. rewrite skipn_length, firstn_length. lia.
+Qed.
+
+(* a successful varint read consumes between 1 and |bs| bytes *)
+Lemma varint_dec_skip bs v n : varint_dec bs = (v, n) -> (n <? 0) = false ->
+  (length (skipn (Z.to_nat n) bs) < length bs)%nat.
+Proof.
+  intros H Hn. apply Z.ltb_ge in Hn. apply varint_dec_result in H. rewrite skipn_length. lia.
+Qed.
+
+Theorem wdec_val_shrinks wt bs v r : wdec_val wt bs = Some (v, r) -> (length r < length bs)%nat.
+Proof.
+  unfold wdec_val.
+  destruct (wt =? 0).
+  { destruct (varint_dec bs) as [x n] eqn:E. destruct (n <? 0) eqn:En; [discriminate|].
+    intros H; inversion H; subst. eapply varint_dec_skip; eassumption. }
+  destruct (wt =? 1).
+  { destruct (ProtoMsg.take 8 bs) as [[x r1]|] eqn:E; [|discriminate]. intros H; inversion H; subst.
+    apply ptake_len in E. lia. }
+  destruct (wt =? 5).
+  { destruct (ProtoMsg.take 4 bs) as [[x r1]|] eqn:E; [|discriminate]. intros H; inversion H; subst.
+    apply ptake_len in E. lia. }
+  destruct (wt =? 2); [|discriminate].
+  destruct (varint_dec bs) as [l n] eqn:E. destruct (n <? 0) eqn:En; [discriminate|].
+  pose proof (varint_dec_skip _ _ _ E En) as Hs.
+  destruct (ProtoMsg.take l (skipn (Z.to_nat n) bs)) as [[x r1]|] eqn:Et; [|discriminate].
+  intros H; inversion H; subst. apply ptake_len in Et. lia.
+Qed.
+
+(* a length-delimited value: the payload AND the rest together are strictly shorter than the input (the length
+   prefix takes at least one byte) *)
+Lemma wdec_val_bytes_len wt bs b r : wdec_val wt bs = Some (WBytes b, r) -> (length b + length r < length bs)%nat.
+Proof.
+  unfold wdec_val.
+  destruct (wt =? 0). { destruct (varint_dec bs) as [x n]. destruct (n <? 0); discriminate. }
+  destruct (wt =? 1). { destruct (ProtoMsg.take 8 bs) as [[x r1]|]; discriminate. }
+  destruct (wt =? 5). { destruct (ProtoMsg.take 4 bs) as [[x r1]|]; discriminate. }
+  destruct (wt =? 2); [|discriminate].
+  destruct (varint_dec bs) as [l n] eqn:E. destruct (n <? 0) eqn:En; [discriminate|].
+  pose proof (varint_dec_skip _ _ _ E En) as Hs.
+  destruct (ProtoMsg.take l (skipn (Z.to_nat n) bs)) as [[x r1]|] eqn:Et; [|discriminate].
+  intros H; inversion H; subst. apply ptake_len in Et. lia.
+Qed.
+
+Lemma rd_tag_shrinks bs num wt r : rd_tag bs = Some (num, wt, r) -> (length r < length bs)%nat.
+Proof.
+  unfold rd_tag. destruct (varint_dec bs) as [tag n] eqn:E. destruct (n <? 0) eqn:En; [discriminate|]. cbv zeta.
+  destruct ((tag / 8 >? 2147483647) || (tag / 8 <? 1)); [discriminate|].
+  intros H; inversion H; subst. eapply varint_dec_skip; eassumption.
+Qed.
+
+Lemma rd_len_shrinks bs l r : rd_len bs = Some (l, r) -> (length r < length bs)%nat.
+Proof.
+  unfold rd_len. destruct (varint_dec bs) as [x n] eqn:E. destruct (n <? 0) eqn:En; [discriminate|].
+  intros H; inversion H; subst. eapply varint_dec_skip; eassumption.
+Qed.
+
+Lemma skip_val_le wt bs r : skip_val wt bs = Some r -> (length r <= length bs)%nat.
+Proof.
+  unfold skip_val. destruct ((wt =? 0) || (wt =? 1) || (wt =? 2) || (wt =? 5)).
+  - destruct (wdec_val wt bs) as [[v r1]|] eqn:E; [|discriminate]. intros H; inversion H; subst.
+    apply wdec_val_shrinks in E. lia.
+  - intros H; inversion H; subst. lia.
+Qed.
+
+Section P2JWalkTotal.
+  Variable fl : Z -> list Z.
+  Variable o : p2j_opts.
+
+  (* ---- progress: for ANY one-level-down message walker (it only yields text; remainders come from the wire reads) ---- *)
+  Section P2JShrink.
+    Variable rec : list Z -> list Z -> option text.
+
+    Lemma read_single_shrinks t bs x r : read_single fl o rec t bs = Some (x, r) -> (length r < length bs)%nat.
+    Proof.
+      unfold read_single. destruct t as [k|name].
+      - destruct (is_byteskind k).
+        + destruct (wdec_val 2 bs) as [[w r1]|] eqn:E; [|discriminate]. destruct w; try discriminate.
+          intros H; inversion H; subst. eapply wdec_val_shrinks; eassumption.
+        + destruct (is_numeric k); [|discriminate].
+          destruct (wdec_val (wt_of_kind k) bs) as [[w r1]|] eqn:E; [|discriminate].
+          destruct (value_text fl o k (go_value k (wval_u w))); [|discriminate].
+          intros H; inversion H; subst. eapply wdec_val_shrinks; eassumption.
+      - destruct (wdec_val 2 bs) as [[w r1]|] eqn:E; [|discriminate]. destruct w; try discriminate.
+        destruct (rec name bs0); [|discriminate].
+        intros H; inversion H; subst. eapply wdec_val_shrinks; eassumption.
+    Qed.
+
+    Lemma unpacked_loop_le : forall f t n bs more rest,
+      unpacked_loop fl o rec f t n bs = Some (more, rest) -> (length rest <= length bs)%nat.
+    Proof.
+      induction f as [|f IH]; intros t n bs more rest; destruct bs as [|c bs]; cbn [unpacked_loop];
+        try discriminate; try (intros H; inversion H; subst; cbn [length]; lia).
+      destruct (rd_tag (c :: bs)) as [[[num wt] r]|] eqn:Et; [|discriminate]. apply rd_tag_shrinks in Et.
+      destruct (negb (num =? n)). { intros H; inversion H; subst. lia. }
+      destruct (read_single fl o rec t r) as [[x r']|] eqn:Es; [|discriminate]. apply read_single_shrinks in Es.
+      destruct (unpacked_loop fl o rec f t n r') as [[m rs]|] eqn:El; [|discriminate]. apply IH in El.
+      intros H; inversion H; subst. lia.
+    Qed.
+
+    Lemma read_entry_shrinks kk t bs x r : read_entry fl o rec kk t bs = Some (x, r) -> (length r < length bs)%nat.
+    Proof.
+      unfold read_entry.
+      destruct (rd_len bs) as [[l r0]|] eqn:E0; [|discriminate]. apply rd_len_shrinks in E0.
+      destruct (rd_tag r0) as [[[n1 w1] r1]|] eqn:E1; [|discriminate]. apply rd_tag_shrinks in E1.
+      destruct (read_single fl o rec (TScalar kk) r1) as [[k r2]|] eqn:E2; [|discriminate]. apply read_single_shrinks in E2.
+      cbv zeta.
+      destruct (rd_tag r2) as [[[n3 w3] r3]|] eqn:E3; [|discriminate]. apply rd_tag_shrinks in E3.
+      destruct (read_single fl o rec t r3) as [[v r4]|] eqn:E4; [|discriminate]. apply read_single_shrinks in E4.
+      intros H; inversion H; subst. lia.
+    Qed.
+
+    Lemma map_loop_le : forall f kk t n bs more rest,
+      map_loop fl o rec f kk t n bs = Some (more, rest) -> (length rest <= length bs)%nat.
+    Proof.
+      induction f as [|f IH]; intros kk t n bs more rest; destruct bs as [|c bs]; cbn [map_loop];
+        try discriminate; try (intros H; inversion H; subst; cbn [length]; lia).
+      destruct (rd_tag (c :: bs)) as [[[num wt] r]|] eqn:Et; [|discriminate]. apply rd_tag_shrinks in Et.
+      destruct (negb (num =? n)). { intros H; inversion H; subst. lia. }
+      destruct (read_entry fl o rec kk t r) as [[x r']|] eqn:Es; [|discriminate]. apply read_entry_shrinks in Es.
+      destruct (map_loop fl o rec f kk t n r') as [[m rs]|] eqn:El; [|discriminate]. apply IH in El.
+      intros H; inversion H; subst. lia.
+    Qed.
+
+    Lemma walk_list_shrinks n t wt bs x r : walk_list fl o rec n t wt bs = Some (x, r) -> (length r < length bs)%nat.
+    Proof.
+      unfold walk_list. destruct ((wt =? 2) && type_numeric t).
+      - destruct (rd_len bs) as [[l r0]|] eqn:E0; [|discriminate]. apply rd_len_shrinks in E0.
+        destruct (ProtoMsg.take l r0) as [[payload rest]|] eqn:E1; [|discriminate]. apply ptake_len in E1.
+        destruct (packed_loop fl o rec (S (length payload)) t payload); [|discriminate].
+        intros H; inversion H; subst. lia.
+      - destruct (read_single fl o rec t bs) as [[y r0]|] eqn:E0; [|discriminate]. apply read_single_shrinks in E0.
+        destruct (unpacked_loop fl o rec (S (length r0)) t n r0) as [[m rs]|] eqn:E1; [|discriminate].
+        apply unpacked_loop_le in E1. intros H; inversion H; subst. lia.
+    Qed.
+
+    Lemma walk_map_shrinks n kk t bs x r : walk_map fl o rec n kk t bs = Some (x, r) -> (length r < length bs)%nat.
+    Proof.
+      unfold walk_map.
+      destruct (read_entry fl o rec kk t bs) as [[y r0]|] eqn:E0; [|discriminate]. apply read_entry_shrinks in E0.
+      destruct (map_loop fl o rec (S (length r0)) kk t n r0) as [[m rs]|] eqn:E1; [|discriminate].
+      apply map_loop_le in E1. intros H; inversion H; subst. lia.
+    Qed.
+
+    Lemma walk_field_shrinks fd wt bs x r : walk_field fl o rec fd wt bs = Some (x, r) -> (length r < length bs)%nat.
+    Proof.
+      unfold walk_field. destruct (fd_label fd).
+      - apply read_single_shrinks.
+      - apply walk_list_shrinks.
+      - apply walk_map_shrinks.
+    Qed.
+  End P2JShrink.
+
+  (* ---- the loops depend neither on their fuel (any fuel >= the number of bytes) nor on the one-level-down walker
+     outside the bodies it can be handed: a nested body is cut out of the current buffer after a length prefix, so
+     it is STRICTLY shorter than the buffer ---- *)
+  Section P2JExt.
+    Variables rec rec' : list Z -> list Z -> option text.
+
+    Lemma read_single_ext t bs :
+      (forall name b, (length b < length bs)%nat -> rec name b = rec' name b) ->
+      read_single fl o rec t bs = read_single fl o rec' t bs.
+    Proof.
+      intros Hext. unfold read_single. destruct t as [k|name]; [reflexivity|].
+      destruct (wdec_val 2 bs) as [[w r1]|] eqn:E; [|reflexivity]. destruct w; try reflexivity.
+      apply wdec_val_bytes_len in E. rewrite Hext by lia. reflexivity.
+    Qed.
+
+    Lemma packed_loop_ext_fuel : forall f f' t payload, (length payload <= f)%nat -> (length payload <= f')%nat ->
+      (forall name b, (length b < length payload)%nat -> rec name b = rec' name b) ->
+      packed_loop fl o rec f t payload = packed_loop fl o rec' f' t payload.
+    Proof.
+      induction f as [|f IH]; intros f' t payload Hf Hf' Hext; destruct payload as [|c p];
+        try (destruct f'; reflexivity); cbn [length] in Hf; try lia.
+      destruct f' as [|f']; cbn [length] in Hf'; try lia. cbn [packed_loop].
+      rewrite (read_single_ext t (c :: p) Hext).
+      destruct (read_single fl o rec' t (c :: p)) as [[x r]|] eqn:E; [|reflexivity]. apply read_single_shrinks in E.
+      cbn [length] in E. destruct r as [|c' r]; [reflexivity|].
+      rewrite (IH f' t (c' :: r)); [reflexivity|lia|lia|].
+      intros name b Hb. apply Hext. cbn [length] in *. lia.
+    Qed.
+
+    Lemma unpacked_loop_ext_fuel : forall f f' t n bs, (length bs <= f)%nat -> (length bs <= f')%nat ->
+      (forall name b, (length b < length bs)%nat -> rec name b = rec' name b) ->
+      unpacked_loop fl o rec f t n bs = unpacked_loop fl o rec' f' t n bs.
+    Proof.
+      induction f as [|f IH]; intros f' t n bs Hf Hf' Hext; destruct bs as [|c p];
+        try (destruct f'; reflexivity); cbn [length] in Hf; try lia.
+      destruct f' as [|f']; cbn [length] in Hf'; try lia. cbn [unpacked_loop].
+      destruct (rd_tag (c :: p)) as [[[num wt] r]|] eqn:Et; [|reflexivity]. apply rd_tag_shrinks in Et. cbn [length] in Et.
+      destruct (negb (num =? n)); [reflexivity|].
+      rewrite (read_single_ext t r) by (intros name b Hb; apply Hext; cbn [length]; lia).
+      destruct (read_single fl o rec' t r) as [[x r']|] eqn:E; [|reflexivity]. apply read_single_shrinks in E.
+      rewrite (IH f' t n r'); [reflexivity|lia|lia|].
+      intros name b Hb. apply Hext. cbn [length]. lia.
+    Qed.
+
+    Lemma walk_list_ext n t wt bs :
+      (forall name b, (length b < length bs)%nat -> rec name b = rec' name b) ->
+      walk_list fl o rec n t wt bs = walk_list fl o rec' n t wt bs.
+    Proof.
+      intros Hext. unfold walk_list. destruct ((wt =? 2) && type_numeric t).
+      - destruct (rd_len bs) as [[l r0]|] eqn:E0; [|reflexivity]. apply rd_len_shrinks in E0.
+        destruct (ProtoMsg.take l r0) as [[payload rest]|] eqn:E1; [|reflexivity]. apply ptake_len in E1.
+        rewrite (packed_loop_ext_fuel (S (length payload)) (S (length payload)) t payload); [reflexivity|lia|lia|].
+        intros name b Hb. apply Hext. lia.
+      - rewrite (read_single_ext t bs Hext).
+        destruct (read_single fl o rec' t bs) as [[y r0]|] eqn:E0; [|reflexivity]. apply read_single_shrinks in E0.
+        rewrite (unpacked_loop_ext_fuel (S (length r0)) (S (length r0)) t n r0); [reflexivity|lia|lia|].
+        intros name b Hb. apply Hext. lia.
+    Qed.
+
+    Lemma read_entry_ext kk t bs :
+      (forall name b, (length b < length bs)%nat -> rec name b = rec' name b) ->
+      read_entry fl o rec kk t bs = read_entry fl o rec' kk t bs.
+    Proof.
+      intros Hext. unfold read_entry.
+      destruct (rd_len bs) as [[l r0]|] eqn:E0; [|reflexivity]. apply rd_len_shrinks in E0.
+      destruct (rd_tag r0) as [[[n1 w1] r1]|] eqn:E1; [|reflexivity]. apply rd_tag_shrinks in E1.
+      rewrite (read_single_ext (TScalar kk) r1) by (intros name b Hb; apply Hext; lia).
+      destruct (read_single fl o rec' (TScalar kk) r1) as [[k r2]|] eqn:E2; [|reflexivity]. apply read_single_shrinks in E2.
+      cbv zeta.
+      destruct (rd_tag r2) as [[[n3 w3] r3]|] eqn:E3; [|reflexivity]. apply rd_tag_shrinks in E3.
+      rewrite (read_single_ext t r3) by (intros name b Hb; apply Hext; lia).
+      reflexivity.
+    Qed.
+
+    Lemma map_loop_ext_fuel : forall f f' kk t n bs, (length bs <= f)%nat -> (length bs <= f')%nat ->
+      (forall name b, (length b < length bs)%nat -> rec name b = rec' name b) ->
+      map_loop fl o rec f kk t n bs = map_loop fl o rec' f' kk t n bs.
+    Proof.
+      induction f as [|f IH]; intros f' kk t n bs Hf Hf' Hext; destruct bs as [|c p];
+        try (destruct f'; reflexivity); cbn [length] in Hf; try lia.
+      destruct f' as [|f']; cbn [length] in Hf'; try lia. cbn [map_loop].
+      destruct (rd_tag (c :: p)) as [[[num wt] r]|] eqn:Et; [|reflexivity]. apply rd_tag_shrinks in Et. cbn [length] in Et.
+      destruct (negb (num =? n)); [reflexivity|].
+      rewrite (read_entry_ext kk t r) by (intros name b Hb; apply Hext; cbn [length]; lia).
+      destruct (read_entry fl o rec' kk t r) as [[x r']|] eqn:E; [|reflexivity]. apply read_entry_shrinks in E.
+      rewrite (IH f' kk t n r'); [reflexivity|lia|lia|].
+      intros name b Hb. apply Hext. cbn [length]. lia.
+    Qed.
+
+    Lemma walk_map_ext n kk t bs :
+      (forall name b, (length b < length bs)%nat -> rec name b = rec' name b) ->
+      walk_map fl o rec n kk t bs = walk_map fl o rec' n kk t bs.
+    Proof.
+      intros Hext. unfold walk_map. rewrite (read_entry_ext kk t bs Hext).
+      destruct (read_entry fl o rec' kk t bs) as [[y r0]|] eqn:E0; [|reflexivity]. apply read_entry_shrinks in E0.
+      rewrite (map_loop_ext_fuel (S (length r0)) (S (length r0)) kk t n r0); [reflexivity|lia|lia|].
+      intros name b Hb. apply Hext. lia.
+    Qed.
+
+    Lemma walk_field_ext fd wt bs :
+      (forall name b, (length b < length bs)%nat -> rec name b = rec' name b) ->
+      walk_field fl o rec fd wt bs = walk_field fl o rec' fd wt bs.
+    Proof.
+      intros Hext. unfold walk_field. destruct (fd_label fd).
+      - apply read_single_ext; assumption.
+      - apply walk_list_ext; assumption.
+      - apply walk_map_ext; assumption.
+    Qed.
+
+    (* in the message loop a nested body comes after a tag AND a length prefix: at least 2 bytes shorter *)
+    Lemma pwalk_fields_ext_fuel : forall f f' md c bs, (length bs <= f)%nat -> (length bs <= f')%nat ->
+      (forall name b, (2 + length b <= length bs)%nat -> rec name b = rec' name b) ->
+      P2JBytes.walk_fields fl o rec f md c bs = P2JBytes.walk_fields fl o rec' f' md c bs.
+    Proof.
+      induction f as [|f IH]; intros f' md c bs Hf Hf' Hext; destruct bs as [|c0 p];
+        try (destruct f'; reflexivity); cbn [length] in Hf; try lia.
+      destruct f' as [|f']; cbn [length] in Hf'; try lia. cbn [P2JBytes.walk_fields].
+      destruct (rd_tag (c0 :: p)) as [[[num wt] r]|] eqn:Et; [|reflexivity]. apply rd_tag_shrinks in Et. cbn [length] in Et.
+      destruct (ProtoMsg.find_field md num) as [fd|].
+      - rewrite (walk_field_ext fd wt r) by (intros name b Hb; apply Hext; cbn [length]; lia).
+        destruct (walk_field fl o rec' fd wt r) as [[x r']|] eqn:E; [|reflexivity]. apply walk_field_shrinks in E.
+        rewrite (IH f' md true r'); [reflexivity|lia|lia|].
+        intros name b Hb. apply Hext. cbn [length]. lia.
+      - destruct (o_disallow_unknown o); [reflexivity|].
+        destruct (skip_val wt r) as [r'|] eqn:E; [|reflexivity]. apply skip_val_le in E.
+        apply IH; [lia|lia|]. intros name b Hb. apply Hext. cbn [length]. lia.
+    Qed.
+  End P2JExt.
+
+  (* ---- b: fuel stability of the four loops, for any one-level-down walker ---- *)
+  Theorem packed_loop_fuel_stable rec f f' t payload : (length payload <= f)%nat -> (length payload <= f')%nat ->
+    packed_loop fl o rec f t payload = packed_loop fl o rec f' t payload.
+  Proof. intros. apply packed_loop_ext_fuel; auto. Qed.
+
+  Theorem unpacked_loop_fuel_stable rec f f' t n bs : (length bs <= f)%nat -> (length bs <= f')%nat ->
+    unpacked_loop fl o rec f t n bs = unpacked_loop fl o rec f' t n bs.
+  Proof. intros. apply unpacked_loop_ext_fuel; auto. Qed.
+
+  Theorem map_loop_fuel_stable rec f f' kk t n bs : (length bs <= f)%nat -> (length bs <= f')%nat ->
+    map_loop fl o rec f kk t n bs = map_loop fl o rec f' kk t n bs.
+  Proof. intros. apply map_loop_ext_fuel; auto. Qed.
+
+  Theorem p2j_walk_fields_fuel_stable rec f f' md c bs : (length bs <= f)%nat -> (length bs <= f')%nat ->
+    P2JBytes.walk_fields fl o rec f md c bs = P2JBytes.walk_fields fl o rec f' md c bs.
+  Proof. intros. apply pwalk_fields_ext_fuel; auto. Qed.
+
+  (* ---- c: the nesting fuel.  A nested body is at least 2 bytes shorter than its parent, so a body of L bytes nests
+     at most L/2 + 1 deep: every fuel f with L < 2 f gives the same answer ---- *)
+  Theorem walk_msg_depth_stable_half Sc : forall f f' name body,
+    (length body < 2 * f)%nat -> (length body < 2 * f')%nat ->
+    walk_msg fl o Sc f name body = walk_msg fl o Sc f' name body.
+  Proof.
+    induction f as [|f IH]; intros f' name body Hf Hf'; [lia|]. destruct f' as [|f']; [lia|].
+    cbn [walk_msg]. unfold walk_body. destruct (find_msg Sc name) as [md|]; [|reflexivity].
+    rewrite (pwalk_fields_ext_fuel (walk_msg fl o Sc f) (walk_msg fl o Sc f')
+               (S (length body)) (S (length body)) md false body); [reflexivity|lia|lia|].
+    intros nm b Hb. apply IH; lia.
+  Qed.
+
+  Theorem walk_msg_depth_stable Sc : forall f f' name body,
+    (length body < f)%nat -> (length body < f')%nat ->
+    walk_msg fl o Sc f name body = walk_msg fl o Sc f' name body.
+  Proof. intros f f' name body Hf Hf'. apply walk_msg_depth_stable_half; lia. Qed.
+End P2JWalkTotal.
+
+(* the model's entry point: the fuel |bs| + 1 gives the answer of every larger fuel: a None of p2j_walk with such a fuel
+   is never "out of fuel" *)
+Corollary p2j_walk_total f o Sc name bs : (length bs < f)%nat ->
+  p2j_walk f o Sc name bs = p2j_walk (S (length bs)) o Sc name bs.
+Proof. intros Hf. unfold p2j_walk, p2j_walk_gen. apply walk_msg_depth_stable; lia. Qed.
+
+Corollary p2j_walk_gen_total fl f o Sc name bs : (length bs < f)%nat ->
+  p2j_walk_gen fl f o Sc name bs = p2j_walk_gen fl (S (length bs)) o Sc name bs.
+Proof. intros Hf. unfold p2j_walk_gen. apply walk_msg_depth_stable; lia. Qed.
